@@ -290,10 +290,16 @@ GATE_CASES = [
     ('[x.__class__ for x in a]', ['a'], True, 'dunder attribute inside a comprehension'),
     ('"{0.__class__}".format(a)', ['a'], True, 'str.format field syntax reads a dunder attribute without an ast.Attribute node'),
     ('"{x.__class__}".format_map({"x": a})', ['a'], True, 'str.format_map field syntax reads a dunder attribute'),
+    *[(f'a.{attr}', ['a'], True, f'introspection attribute .{attr} (CPython data model: reaches frames, code objects or the real builtins '
+                                  f'without a dunder name, e.g. (x for x in y).gi_frame.f_back.f_builtins)')
+      for attr in ('gi_frame', 'gi_code', 'gi_yieldfrom', 'cr_frame', 'cr_code', 'cr_await', 'ag_frame', 'ag_code', 'ag_await',
+                   'f_back', 'f_builtins', 'f_globals', 'f_locals', 'f_code', 'f_trace', 'tb_frame', 'tb_next', 'co_consts', 'co_names', 'co_code')],
+    ("(1 for z in '').gi_frame.f_builtins", [], True, 'frame of a generator expression'),
     ('a', ['a'], False, 'name bound in the AST'),
     ('a + 1', ['a'], False, 'arithmetic on a bound name'),
     ('len(a)', ['a', 'len'], False, 'call of a context function'),
     ('a.upper()', ['a'], False, 'method call on a bound value'),
+    ('a.first_name', ['a'], False, 'ordinary attribute of a bound value'),
     ('"lit"', [], False, 'literal'),
     ('f"{a}"', ['a'], False, 'f-string over a bound name'),
     ('(a, 1, [2])', ['a'], False, 'display of literals and bound names'),
